@@ -1,7 +1,7 @@
 SPECIFICATION GenSpec
 CONSTANTS
   MaxC = 4
-  MaxInit = 4
+  MaxInit = 3
   MaxT0 = 2
   MaxT = 3
   MaxPage = 3
